@@ -15,6 +15,9 @@
  *                                          the first nfix requests (indices into OPS) are given, all completions to length a+b+c
  *                                          are enumerated in lexicographic order.  enc=1: after the history run pipeline 2 with
  *                                          1100 samples (0.75 s of audio for managed set-ups) when setup_init succeeded (used with nfix == a+b+c).
+ *   S 0 <path> <ch> <rate> <qi> <pl> <ns>  one explicit VBR tuple;  S 1 <path> <ch> <rate> <max> <nominal> <min> <pl> <ns>  one explicit managed tuple.
+ *                                          pl = 10+s (in G, M and S): pipeline 2 with signal SIGNAMES[s] instead of noise (over-full-scale sines,
+ *                                          square wave, level sweep, FLT_MAX / inf / NaN bursts)
  *   T                                      print the tables (rates, qualities, ops, bases) as one line of JSON-ish text
  * output: <idx> ok n=<set-ups> cls=<class>*<count>,...  succ=<ch>/<template>*<count>,.. st=<hash>:<ops>,.. leak=<desc>*<bytes>,.. bad=<kind>@<desc>;..
  * A non-empty bad= is a property violation on that tuple.  */
@@ -218,11 +221,34 @@ static int info_is_zero(const vorbis_info *vi){ vorbis_info z; memset(&z,0,sizeo
 static unsigned long g_lcg;
 static float noise(void){ g_lcg=g_lcg*6364136223846793005UL+1442695040888963407UL; return ((long)((g_lcg>>33)&0xffff)-32768)/65536.f; }
 typedef struct { long packets,bytes,blocks; int bigpad; } encstat;
+/* signal alphabet for the encode stage (pl = 10+index; pl 2 = the +-0.5 noise above).  The float API accepts any value:
+   over-full-scale tones, a square wave, an exponential level sweep, and bursts of FLT_MAX / inf / NaN inside noise. */
+#include <float.h>
+static const char *const SIGNAMES[]={"sine_x2","sine_x4","sine_x100","sine_x1e6","square_x4","sweep_1e-4..1e4","fltmax_bursts","inf_bursts","nan_bursts"};
+#define NSIG ((int)(sizeof(SIGNAMES)/sizeof(SIGNAMES[0])))
+static float sigsample(int sig,long k,int c,long rate,long ns){
+  double f=(rate>4000?1000.:rate/8.+1e-3)/(double)(rate>0?rate:1), ph=2.*M_PI*f*k+c*.3, s=sin(ph);
+  int burst=((k&511)>=200&&(k&511)<216);       /* 16 samples in every 512 */
+  switch(sig){
+  case 0: return (float)(2.*s);
+  case 1: return (float)(4.*s);
+  case 2: return (float)(100.*s);
+  case 3: return (float)(1e6*s);
+  case 4: return ((k+c*7)&63)<32?4.f:-4.f;
+  case 5: return (float)(s*pow(10.,-4.+8.*(double)k/(double)(ns>1?ns-1:1)));
+  case 6: return burst?((k&1)?FLT_MAX:-FLT_MAX):noise();
+  case 7: return burst?((k&1)?INFINITY:-INFINITY):noise();
+  case 8: return burst?NAN:noise();
+  }
+  return noise();
+}
 /* after a successful set-up: analysis_init, headerout, (encode ns samples), headerin of the three headers; clears its own objects.
  * returns 0 and leaves bad[0]==0 when everything completed as documented */
 static void pipeline(vorbis_info *vi,long ch,long rate,int level,long ns,char *bad,size_t badn,encstat *es){
+  int sig=-1;
   vorbis_dsp_state vd; vorbis_block vb; vorbis_comment vc,vc2; vorbis_info vi2; ogg_packet h[3],op; int r,i,have_vb=0;
   memset(&vd,0,sizeof(vd)); memset(h,0,sizeof(h)); bad[0]=0;
+  if(level>=10){ sig=level-10; level=2; }
   r=vorbis_analysis_init(&vd,vi);
   if(r){ snprintf(bad,badn,"analysis_init_rc%d",r); vorbis_dsp_clear(&vd); return; }
   vorbis_comment_init(&vc); vorbis_comment_add_tag(&vc,"TITLE","c15");
@@ -260,7 +286,7 @@ static void pipeline(vorbis_info *vi,long ch,long rate,int level,long ns,char *b
       if(chunk>1024)chunk=1024;
       if(chunk>0){
         buf=vorbis_analysis_buffer(&vd,chunk);
-        for(k=0;k<chunk;k++)for(c=0;c<vi->channels;c++)buf[c][k]=noise();
+        for(k=0;k<chunk;k++)for(c=0;c<vi->channels;c++)buf[c][k]=sig<0?noise():sigsample(sig,pos+k,c,rate,ns);
         r=vorbis_analysis_wrote(&vd,chunk); pos+=chunk;
       }else{ r=vorbis_analysis_wrote(&vd,0); eos=1; }
       if(r){ snprintf(bad,badn,"analysis_wrote_rc%d",r); break; }
@@ -294,6 +320,7 @@ static void one_setup(acc *A,int managed,int path,long ch,long rate,float q,long
   vorbis_info vi; int r1=0,r2=0,rc; char desc[200],cls[200],tl[64],qb[32],kind[120],pb[120]; long base; const char *fn1,*fn;
   if(managed)snprintf(desc,sizeof(desc),"managed:p%d:ch=%ld:rate=%ld:max=%ld:nom=%ld:min=%ld",path,ch,rate,mx,nom,mn);
   else snprintf(desc,sizeof(desc),"vbr:p%d:ch=%ld:rate=%ld:q=%s",path,ch,rate,qname(q,qb));
+  if(pl>=10){ size_t dl=strlen(desc); snprintf(desc+dl,sizeof(desc)-dl,":pl=%d:sig=%s",pl,pl-10<NSIG?SIGNAMES[pl-10]:"?"); }
   fn1=managed?"setup_managed":"setup_vbr"; fn=managed?"init":"init_vbr";
   g_ord=A->n; snprintf(g_desc,sizeof(g_desc),"%s",desc);
   A->n++;
@@ -448,6 +475,7 @@ static void print_tables(void){
   printf("],\"bitr\":["); for(i=0;i<7;i++)printf("%s%ld",i?",":"",BITR[i]);
   printf("],\"mrates\":["); for(i=0;i<8;i++)printf("%s%ld",i?",":"",MRATES[i]);
   printf("],\"ops\":["); for(i=0;i<NOPS;i++)printf("%s[%d,\"%s\",%d]",i?",":"",OPS[i].number,OPS[i].name,is_set_request(OPS[i].number)&&OPS[i].ak!=AK_VINULL);
+  printf("],\"signals\":["); for(i=0;i<NSIG;i++)printf("%s\"%s\"",i?",":"",SIGNAMES[i]);
   printf("],\"bases\":["); for(i=0;i<NBASES;i++)printf("%s\"%s\"",i?",":"",BASES[i].name);
   printf("]}\n");
 }
@@ -469,7 +497,7 @@ int main(int argc,char **argv){
     while((tok=strtok_r(NULL," \n",&sv))&&nv<40)v[nv++]=atol(tok);
     memset(&it,0,sizeof(it)); it.it_value.tv_sec=timeout; setitimer(ITIMER_PROF,&it,NULL);
     g_nskip=0; g_ord=-1; g_desc[0]=0;
-    { int fixed=(mode=='C'&&nv>=6)?6+(int)v[5]:6; int k; for(k=fixed;k<nv&&g_nskip<16;k++)g_skip[g_nskip++]=v[k]; }
+    { int fixed=(mode=='C'&&nv>=6)?6+(int)v[5]:(mode=='S'?(nv>0&&v[0]?9:7):6); int k; for(k=fixed;k<nv&&g_nskip<16;k++)g_skip[g_nskip++]=v[k]; }
     if(mode=='G'&&nv>=6){
       int path=v[0],ri,qi; long ch=v[1];
       for(ri=0;ri<NRATES;ri++){ if(v[2]>=0&&v[2]!=ri)continue;
@@ -480,6 +508,10 @@ int main(int argc,char **argv){
       for(mi=0;mi<8;mi++){ if(v[2]>=0&&v[2]!=mi)continue;
         for(ti=0;ti<NTRI;ti++){ if(v[3]>=0&&v[3]!=ti)continue;
           one_setup(&A,1,path,ch,MRATES[mi],0,BITR[ti/49],BITR[(ti/7)%7],BITR[ti%7],v[4],v[5]); } }
+    }else if(mode=='S'&&nv>=7&&(v[0]==0||nv>=9)){
+      /* explicit tuple: S 0 <path> <ch> <rate> <qi> <pl> <ns>   |   S 1 <path> <ch> <rate> <max> <nominal> <min> <pl> <ns> */
+      if(v[0]==0){ if(v[4]<0||v[4]>=NQUALS){ printf("%ld BADCASE\n",idx); fflush(stdout); continue; } one_setup(&A,0,v[1],v[2],v[3],QUALS[v[4]],0,0,0,v[5],v[6]); }
+      else one_setup(&A,1,v[1],v[2],v[3],0,v[4],v[5],v[6],v[7],v[8]);
     }else if(mode=='C'&&nv>=6){
       int base=v[0],a=v[1],b=v[2],c=v[3],enc=v[4],nfix=v[5],L=a+b+c,ops[8],k,okc=1;
       if(base<0||base>=NBASES||L>6||nfix>L||nfix<0||nv<6+nfix)okc=0;
